@@ -15,6 +15,8 @@ pub fn pool() -> Vec<V> {
     vec![
         V::Nil, V::Bool(true), V::Bool(false), V::Int(0), V::Int(1), V::Int(-1), V::Int(2), V::Int(10),
         V::Float(1.0), V::Float(2.0), V::Float(0.5), V::Float(-1.0),
+        // the ends of the integer range next to floats far outside it
+        V::Int(i64::MAX), V::Int(i64::MIN), V::Float(1e19), V::Float(-1e19),
         V::s("1"), V::s("10"), V::s("abc"), V::s("ABC"), V::s("a"), V::s(""), V::s(" "), V::s("true"),
         V::Arr(vec![]), V::Arr(vec![V::Int(1)]), V::Arr(vec![V::Int(1), V::Int(2)]), V::Arr(vec![V::s("a")]),
         V::Obj(vec![]), V::obj(&[("k", V::Int(1))]), V::obj(&[("a", V::Int(1))]),
